@@ -49,6 +49,7 @@ class FnSpec:
         self.ret = 'r'
         self.sections = {}      # 'requires' / 'ensures' / 'body-start' / ('loop',k,'pre'|'spec')
         self.anchors = []       # (where, fragment, text, lineno)
+        self.optional = set()   # section keys that may stay unused
         self.used = False
         self.lineno = 0
 
@@ -121,7 +122,14 @@ def load_overlay(path, variants=frozenset()):
             m = re.fullmatch(r'(before|after|after-stmt)\s+<<(.*)>>', h)
             m2 = re.fullmatch(r'(loop|closure)\s+(\d+)\s+(outer|pre|spec|post|body-start|body-end)', h)
             m3 = re.fullmatch(r'closure\s+~<<(.*)>>\s+spec', h)
-            if m3:
+            m4 = re.fullmatch(r'closure\s+@([A-Za-z_][A-Za-z0-9_]*)#(\d+)(\??)\s+spec', h)
+            if m4:
+                # keyed by position: the closure that is the first argument of the k-th call of METHOD; with a trailing `?`
+                # the call may be absent (the block is then unused), otherwise a missing call is a lost anchor
+                sec = ('closure@', m4.group(1), int(m4.group(2)))
+                if m4.group(3):
+                    cur.optional.add(sec)
+            elif m3:
                 # keyed by content: applies to the closure whose body contains the token sequence; optional
                 sec = ('closure~', m3.group(1), 'spec')
             elif m:
@@ -232,10 +240,51 @@ def _drop_logging(body, dropped):
 OPAQUE_MACROS = {'format': '__fmt_opaque', 'anyhow': 'anyhow'}
 
 
+def _format_captures(lit):
+    """identifiers captured implicitly by a format string literal (`{v}`, `{v:02X}`), first-occurrence order;
+    None if the literal uses something this scanner does not understand (positional indices, width args, ...)"""
+    if not (lit.startswith('"') and lit.endswith('"')):
+        return None
+    body = lit[1:-1]
+    caps, i, n = [], 0, len(body)
+    while i < n:
+        c = body[i]
+        if c == '{':
+            if i + 1 < n and body[i + 1] == '{':
+                i += 2
+                continue
+            j = body.find('}', i)
+            if j < 0:
+                return None
+            inner = body[i + 1:j]
+            name = inner.split(':', 1)[0].strip()
+            if name == '':
+                pass
+            elif re.fullmatch(r'[A-Za-z_][A-Za-z0-9_]*', name):
+                if name not in caps:
+                    caps.append(name)
+            else:
+                return None
+            if '$' in inner or '*' in inner:
+                return None
+            i = j + 1
+            continue
+        if c == '}':
+            if i + 1 < n and body[i + 1] == '}':
+                i += 2
+                continue
+            return None
+        i += 1
+    return caps
+
+
 def _opaque_messages(body, dropped):
-    """T9: the TEXT of a message is not modelled. `format!(..)` becomes a call of the opaque `__fmt_opaque()` and
-    `anyhow!(..)` a call of the opaque error constructor `anyhow()`; the macro arguments (format string and its
-    operands) are dropped. Whether an error / a string is produced, and where, is unchanged."""
+    """T9: the TEXT of a message is not modelled.
+    `anyhow!(..)` becomes a call of the opaque error constructor `anyhow()`; its arguments are dropped.
+    `format!("lit", a, b)` becomes `__fmtK("lit", &cap.., &(a), &(b))`: an opaque function of the literal, of the
+    variables the literal captures implicitly (`{v}`) and of the explicit arguments, all passed by reference as format!
+    does; its result is the uninterpreted `fmt_text(literal, [display text of each argument])`. A format! whose literal
+    this scanner does not understand falls back to `__fmt_opaque()` with the arguments dropped."""
     out = []
     i, n = 0, len(body)
     while i < n:
@@ -247,8 +296,43 @@ def _opaque_messages(body, dropped):
                 k = next_sig(body, j + 1)
                 if k < n and body[k].text == '(':
                     e = match_close(body, k)
-                    dropped.append(('T9', render(body[i:e + 1]), list(body[i:e + 1])))
-                    out += lit('%s()' % OPAQUE_MACROS[t.text], 'T9')
+                    inner = body[k + 1:e]
+                    done = False
+                    if t.text == 'format':
+                        # split at top-level commas
+                        parts, cur, commas, x = [], [], [], 0
+                        while x < len(inner):
+                            y = inner[x]
+                            if y.kind == 'punct' and y.text in rsscan.OPEN:
+                                z = match_close(inner, x)
+                                cur += inner[x:z + 1]
+                                x = z + 1
+                                continue
+                            if y.kind == 'punct' and y.text == ',':
+                                parts.append(cur)
+                                commas.append(y)
+                                cur = []
+                            else:
+                                cur.append(y)
+                            x += 1
+                        if [y for y in cur if y.sig()]:
+                            parts.append(cur)
+                        lit0 = [y for y in parts[0] if y.sig()] if parts else []
+                        named = any(any(y.kind == 'punct' and y.text == '=' for y in p if y.sig()) for p in parts[1:])
+                        caps = _format_captures(lit0[0].text) if len(lit0) == 1 and lit0[0].kind == 'str' else None
+                        if caps is not None and not named and len(caps) + len(parts) - 1 <= 6:
+                            args = [_opaque_messages(_trim(p), dropped) for p in parts[1:]]
+                            dropped.append(('T9', 'format! -> __fmt%d' % (len(caps) + len(args)), [t, body[j], body[k], body[e]] + commas))
+                            out += lit('__fmt%d(' % (len(caps) + len(args)), 'T9') + [lit0[0]]
+                            for c in caps:
+                                out += lit(', &%s' % c, 'T9')
+                            for a in args:
+                                out += lit(', &(', 'T9') + a + lit(')', 'T9')
+                            out += lit(')', 'T9')
+                            done = True
+                    if not done:
+                        dropped.append(('T9', render(body[i:e + 1]), list(body[i:e + 1])))
+                        out += lit('%s()' % OPAQUE_MACROS[t.text], 'T9')
                     i = e + 1
                     continue
         out.append(t)
@@ -480,8 +564,21 @@ def _closures(body, spec, ctr, dropped, used):
                 if csp is not None:
                     used.add(('closure', k, 'spec'))
                 elif spec:
+                    # by position: argument of the n-th call of a method
+                    if pv >= 0 and body[pv].text == '(':
+                        mi = prev_sig(body, pv - 1)
+                        if mi >= 0 and body[mi].kind == 'ident':
+                            meth = body[mi].text
+                            nth = ctr.__dict__.setdefault('meth', {}).get(meth, 0)
+                            ctr.meth[meth] = nth + 1
+                            key = ('closure@', meth, nth)
+                            if key in spec.sections:
+                                p0 = [x for x in params if x.sig()]
+                                pname = p0[0].text if (len(p0) == 1 and p0[0].kind == 'ident') else '__p%d' % k
+                                csp = spec.sections[key].replace('$cp', pname)
+                                used.add(key)
                     ctexts = [x.text for x in cbody if x.sig()]
-                    for key in spec.sections:
+                    for key in (spec.sections if csp is None else ()):
                         if isinstance(key, tuple) and key[0] == 'closure~':
                             frag = [x.text for x in tokenize(key[1]) if x.sig()]
                             if any(ctexts[a:a + len(frag)] == frag for a in range(0, len(ctexts) - len(frag) + 1)):
@@ -730,6 +827,15 @@ def _subst_placeholders(text, lets, fname):
         return hits[k]
     text = re.sub(r'\$letx<([^<>$;]+);([^<>$;]+)>#(\d+)', repx, text)
 
+    def repstr(m):
+        # $strlit<TEXT> : the unique string literal of the body that contains TEXT (the literal itself is spliced)
+        hits = [t for t in lets.bodytexts if t.startswith('"') and m.group(1) in t]
+        hits = sorted(set(hits))
+        if len(hits) != 1:
+            raise Unsupported('%s: placeholder %s: %d matching string literals' % (fname, m.group(0), len(hits)))
+        return hits[0]
+    text = re.sub(r'\$strlit<([^<>$]+)>', repstr, text)
+
     def repf(m):
         k, i = int(m.group(1)), int(m.group(2))
         pats = lets.forpats
@@ -744,13 +850,14 @@ def _resolve_spec(spec, body, fname):
     if spec is None:
         return None
     alltext = ''.join(spec.sections.values()) + ''.join(a[1] + a[2] for a in spec.anchors)
-    if '$let' not in alltext and '$for<' not in alltext and '$recv<' not in alltext:
+    if '$let' not in alltext and '$for<' not in alltext and '$recv<' not in alltext and '$strlit<' not in alltext:
         return spec
     lets = LetList(_collect_lets(body))
     lets.forpats = _collect_for_patterns(body)
     lets.bodytexts = [t.text for t in body if t.sig()]
     c = FnSpec(spec.file, spec.impl_re, spec.name)
     c.tags, c.ctags, c.ret, c.lineno = spec.tags, spec.ctags, spec.ret, spec.lineno
+    c.optional = spec.optional
     c.sections = dict((k, _subst_placeholders(v, lets, fname)) for k, v in spec.sections.items())
     c.anchors = [(w, _subst_placeholders(f, lets, fname), _subst_placeholders(t, lets, fname), no) for (w, f, t, no) in spec.anchors]
     c.orig = spec
@@ -831,7 +938,7 @@ def extract_fn(item, file, impl_key, spec, twin_false=False):
     out.append(toks[item.body_close])
     if spec:
         for s in spec.sections:
-            if s not in used and not (isinstance(s, tuple) and s[0] == 'closure~'):
+            if s not in used and not (isinstance(s, tuple) and (s[0] == 'closure~' or s in getattr(spec, 'optional', ()))):
                 raise Unsupported('%s: overlay section %r has no place in the code (loop ordinal gone?)' % (item.name, s))
         spec.used = True
         orig_spec.used = True
